@@ -507,9 +507,6 @@ def gen_dirs_misc_bounds(rng, tier):
             sizes = list(range(0, 22)) if tier != "quick" else [0, 3, 4, 5, 8, 11, 12, 13, 20]
             for size in sizes:
                 # file: the record is the last `size` bytes of the file
-                L = Layout(rng, bits)
-                body = L.build()
-                tpos = None
                 L = Layout(rng, bits, rdata_last=True)
                 ent_off = L.rdata.alloc(bytes(28), 4, 0)
                 L.pe.dirs[DIR_DEBUG] = (L.rdata.rva(ent_off), 28)
